@@ -1,6 +1,7 @@
 import Seccomp.Model.Spec
 import Seccomp.Model.Oracle
 import Seccomp.Gen.Tables
+import Seccomp.Driver.Disasm
 import Std.Data.HashMap
 import Seccomp.Driver.Loader
 import Seccomp.Driver.Raw
@@ -299,6 +300,7 @@ def handle (A : Arches) (line : String) : String :=
      | some (prog, []) => Driver.Raw.handleR prog
      | _ => "BAD-REQUEST")
   | "K" :: rest => Driver.Raw.handleK rest
+  | "D" :: rest => DisasmDriver.handle rest
   | _ => "BAD-REQUEST"
 
 partial def loop (A : Arches) (hin hout : IO.FS.Stream) : IO Unit := do
